@@ -4,19 +4,510 @@ import TemplVerif.Proofs.Doc
 namespace TemplVerif.Proofs.Quote
 open TemplVerif TemplVerif.Quote
 
+theorem hexVal_hexLower : ∀ d, d < 16 → hexVal (hexLower d) = some d := by decide
+
+theorem hexLower_ne_lf : ∀ d, d < 16 → hexLower d ≠ 10 := by decide
+
+theorem hexN_succ (n v : Nat) : hexN (n + 1) v = hexLower ((v / 16 ^ n) % 16) :: hexN n v := by
+  simp [hexN, List.range_succ]
+
+theorem hexDigits_hexN (n : Nat) : ∀ (acc v : Nat) (t : Bytes),
+    hexDigits n acc (hexN n v ++ t) = some (acc * 16 ^ n + v % 16 ^ n, t) := by
+  induction n with
+  | zero => intro acc v t; simp [hexN, hexDigits, Nat.mod_one]
+  | succ n ih =>
+    intro acc v t
+    rw [hexN_succ, List.cons_append, hexDigits, hexVal_hexLower _ (Nat.mod_lt _ (by omega))]
+    simp only [Option.bind_some]
+    rw [ih, Nat.mod_pow_succ]
+    congr 2
+    grind
+
+theorem hexN_no_lf (n v : Nat) : (10 : UInt8) ∉ hexN n v := by
+  induction n with
+  | zero => simp [hexN]
+  | succ n ih =>
+    rw [hexN_succ]
+    simp only [List.mem_cons, not_or]
+    exact ⟨fun h => hexLower_ne_lf _ (Nat.mod_lt _ (by omega)) h.symm, ih⟩
+
+theorem hexDigits_length : ∀ (n acc : Nat) (s : Bytes) (v : Nat) (r : Bytes),
+    hexDigits n acc s = some (v, r) → r.length ≤ s.length := by
+  intro n
+  induction n with
+  | zero => intro acc s v r h; simp [hexDigits] at h; simp [h.2]
+  | succ n ih =>
+    intro acc s v r h
+    cases s with
+    | nil => simp [hexDigits] at h
+    | cons b rest =>
+      simp only [hexDigits] at h
+      cases hv : hexVal b with
+      | none => simp [hv] at h
+      | some d =>
+        simp only [hv, Option.bind_some] at h
+        have := ih _ _ _ _ h
+        simp; omega
+
+
+theorem unquoteAux_nil (f : Nat) : unquoteAux f [] = some [] := by
+  cases f <;> rfl
+
+/-- One escape step of `unquoteAux`, abstracted over the recursive call. -/
+def escStep (U : Bytes → Option Bytes) (e : UInt8) (rest' : Bytes) : Option Bytes :=
+  let simple (c : UInt8) := (U rest').map (c :: ·)
+  if e == 97 then simple 7 else if e == 98 then simple 8 else if e == 102 then simple 12
+  else if e == 110 then simple 10 else if e == 114 then simple 13 else if e == 116 then simple 9
+  else if e == 118 then simple 11 else if e == 92 then simple 92 else if e == 34 then simple 34
+  else if e == 120 then
+    (hexDigits 2 0 rest').bind fun (v, r) => (U r).map (v.toUInt8 :: ·)
+  else if e == 117 then
+    (hexDigits 4 0 rest').bind fun (v, r) =>
+      if 0xD800 ≤ v && v < 0xE000 then none else (U r).map (Utf8.encodeRune v ++ ·)
+  else if e == 85 then
+    (hexDigits 8 0 rest').bind fun (v, r) =>
+      if v > 0x10FFFF || (0xD800 ≤ v && v < 0xE000) then none else (U r).map (Utf8.encodeRune v ++ ·)
+  else none
+
+theorem unquoteAux_esc (f : Nat) (e : UInt8) (rest' : Bytes) :
+    unquoteAux (f + 1) (92 :: e :: rest') = escStep (unquoteAux f) e rest' := by
+  rw [unquoteAux.eq_def]
+  simp only [escStep]
+  rfl
+
+theorem unquoteAux_raw (f : Nat) (b : UInt8) (rest : Bytes) (h1 : b ≠ 34) (h2 : b ≠ 10) (h3 : b ≠ 92) :
+    unquoteAux (f + 1) (b :: rest) = (unquoteAux f rest).map (b :: ·) := by
+  rw [unquoteAux.eq_def]
+  simp [h1, h2, h3]
+
+theorem bind_congr_hex (n : Nat) (rest' : Bytes) (F G : Nat × Bytes → Option Bytes)
+    (h : ∀ v r, r.length ≤ rest'.length → F (v, r) = G (v, r)) :
+    (hexDigits n 0 rest').bind F = (hexDigits n 0 rest').bind G := by
+  cases hh : hexDigits n 0 rest' with
+  | none => rfl
+  | some p =>
+    obtain ⟨v, r⟩ := p
+    simp only [Option.bind_some]
+    exact h v r (hexDigits_length _ _ _ _ _ hh)
+
+theorem escStep_congr (U V : Bytes → Option Bytes) (e : UInt8) (rest' : Bytes)
+    (h : ∀ x : Bytes, x.length ≤ rest'.length → U x = V x) : escStep U e rest' = escStep V e rest' := by
+  unfold escStep
+  simp only [h rest' (Nat.le_refl _)]
+  rw [bind_congr_hex 2 rest' _ (fun (p : Nat × Bytes) => (V p.2).map (p.1.toUInt8 :: ·))
+        (fun v r hr => by simp only [h r hr]),
+      bind_congr_hex 4 rest' _ (fun (p : Nat × Bytes) =>
+        if 0xD800 ≤ p.1 && p.1 < 0xE000 then none else (V p.2).map (Utf8.encodeRune p.1 ++ ·))
+        (fun v r hr => by simp only [h r hr]),
+      bind_congr_hex 8 rest' _ (fun (p : Nat × Bytes) =>
+        if p.1 > 0x10FFFF || (0xD800 ≤ p.1 && p.1 < 0xE000) then none else (V p.2).map (Utf8.encodeRune p.1 ++ ·))
+        (fun v r hr => by simp only [h r hr])]
+
+theorem unquoteAux_fuel : ∀ (f : Nat) (s : Bytes), s.length ≤ f → unquoteAux f s = unquoteAux s.length s := by
+  intro f
+  induction f using Nat.strongRecOn with
+  | _ f ih =>
+    intro s hs
+    cases s with
+    | nil => simp [unquoteAux_nil]
+    | cons b rest =>
+      cases f with
+      | zero => simp at hs
+      | succ f =>
+        simp only [List.length_cons] at hs ⊢
+        have key : ∀ x : Bytes, x.length ≤ rest.length → unquoteAux f x = unquoteAux rest.length x := by
+          intro x hx
+          rw [ih f (by omega) x (by omega), ih rest.length (by omega) x hx]
+        by_cases hb : b = 34 ∨ b = 10
+        · rw [unquoteAux.eq_def, unquoteAux.eq_def]; rcases hb with rfl | rfl <;> simp
+        by_cases h3 : b = 92
+        · subst h3
+          cases rest with
+          | nil => rfl
+          | cons e rest' =>
+            rw [unquoteAux_esc, unquoteAux_esc]
+            exact escStep_congr _ _ _ _ (fun x hx => key x (by simp; omega))
+        · rw [unquoteAux_raw _ _ _ (fun h => hb (Or.inl h)) (fun h => hb (Or.inr h)) h3,
+            unquoteAux_raw _ _ _ (fun h => hb (Or.inl h)) (fun h => hb (Or.inr h)) h3, key rest (Nat.le_refl _)]
+
+theorem unquote_nil : unquote [] = some [] := rfl
+
+theorem unquote_raw (b : UInt8) (rest : Bytes) (h1 : b ≠ 34) (h2 : b ≠ 10) (h3 : b ≠ 92) :
+    unquote (b :: rest) = (unquote rest).map (b :: ·) := by
+  simp only [unquote, List.length_cons]
+  rw [unquoteAux_raw _ _ _ h1 h2 h3]
+
+theorem unquote_esc (e : UInt8) (rest' : Bytes) : unquote (92 :: e :: rest') = escStep unquote e rest' := by
+  simp only [unquote, List.length_cons]
+  rw [unquoteAux_esc]
+  exact escStep_congr _ _ _ _ (fun x hx => unquoteAux_fuel _ _ (by omega))
+
+
+theorem unquote_rawlist (xs X : Bytes) (h : ∀ b ∈ xs, b ≠ 34 ∧ b ≠ 10 ∧ b ≠ 92) :
+    unquote (xs ++ X) = (unquote X).map (xs ++ ·) := by
+  induction xs with
+  | nil => simp
+  | cons b xs ih =>
+    have hb := h b (by simp)
+    rw [List.cons_append, unquote_raw _ _ hb.1 hb.2.1 hb.2.2, ih (fun x hx => h x (by simp [hx])), Option.map_map]
+    rfl
+
+theorem unquote_x (v : Nat) (X : Bytes) :
+    unquote (92 :: 120 :: (hexN 2 v ++ X)) = (unquote X).map ((v % 256).toUInt8 :: ·) := by
+  rw [unquote_esc]
+  simp [escStep, hexDigits_hexN]
+
+theorem unquote_u (v : Nat) (X : Bytes) (hv : v < 0x10000) (hs : ¬ (0xD800 ≤ v ∧ v < 0xE000)) :
+    unquote (92 :: 117 :: (hexN 4 v ++ X)) = (unquote X).map (Utf8.encodeRune v ++ ·) := by
+  rw [unquote_esc]
+  have : v % 65536 = v := Nat.mod_eq_of_lt hv
+  simp [escStep, hexDigits_hexN, this]
+  omega
+
+theorem unquote_U (v : Nat) (X : Bytes) (hv : v < 0x110000) (hs : ¬ (0xD800 ≤ v ∧ v < 0xE000)) :
+    unquote (92 :: 85 :: (hexN 8 v ++ X)) = (unquote X).map (Utf8.encodeRune v ++ ·) := by
+  rw [unquote_esc]
+  have : v % 4294967296 = v := Nat.mod_eq_of_lt (by omega)
+  simp [escStep, hexDigits_hexN, this]
+  omega
+
+theorem unquote_simple (e c : UInt8) (X : Bytes)
+    (h : (e, c) ∈ [((97 : UInt8), (7 : UInt8)), (98, 8), (102, 12), (110, 10), (114, 13), (116, 9), (118, 11), (92, 92), (34, 34)]) :
+    unquote (92 :: e :: X) = (unquote X).map (c :: ·) := by
+  rw [unquote_esc]
+  simp only [List.mem_cons, Prod.mk.injEq, List.not_mem_nil, or_false] at h
+  rcases h with h | h | h | h | h | h | h | h | h <;> obtain ⟨rfl, rfl⟩ := h <;> simp [escStep]
+
+theorem encodeRune_high (r : Nat) (h1 : 0x80 ≤ r) (h2 : r < 0x110000) :
+    ∀ b ∈ Utf8.encodeRune r, 128 ≤ b.toNat := by
+  unfold Utf8.encodeRune
+  split
+  · omega
+  split
+  · simp; omega
+  split
+  · simp; omega
+  · simp; omega
+
+
+theorem encodeRune_ascii (r : Nat) (h : r < 0x80) : Utf8.encodeRune r = [r.toUInt8] := by
+  simp [Utf8.encodeRune, h]
+
+theorem toUInt8_ne (r c : Nat) (hr : r < 256) (hc : c < 256) (h : r ≠ c) : r.toUInt8 ≠ c.toUInt8 := by
+  intro e
+  have := congrArg UInt8.toNat e
+  simp at this
+  omega
+
+theorem raw_ok (isPrint : Nat → Bool) (hlf : isPrint 10 = false) (r : Nat) (hr : r < 0x110000)
+    (h34 : r ≠ 34) (h92 : r ≠ 92) (hp : isPrint r = true) :
+    ∀ b ∈ Utf8.encodeRune r, b ≠ 34 ∧ b ≠ 10 ∧ b ≠ 92 := by
+  have h10 : r ≠ 10 := by intro h; subst h; simp [hlf] at hp
+  by_cases hlt : r < 0x80
+  · rw [encodeRune_ascii r hlt]
+    intro b hb
+    simp only [List.mem_singleton] at hb
+    subst hb
+    exact ⟨toUInt8_ne r 34 (by omega) (by omega) h34, toUInt8_ne r 10 (by omega) (by omega) h10,
+      toUInt8_ne r 92 (by omega) (by omega) h92⟩
+  · intro b hb
+    have := encodeRune_high r (by omega) hr b hb
+    refine ⟨?_, ?_, ?_⟩ <;> (intro e; subst e; simp at this)
+
+theorem escaped_ok (isPrint : Nat → Bool) (hlf : isPrint 10 = false) (r : Nat) (hr : r < 0x110000)
+    (hs : ¬ (0xD800 ≤ r ∧ r < 0xE000)) (X : Bytes) :
+    unquote (escapedRune isPrint r (Utf8.encodeRune r) ++ X) = (unquote X).map (Utf8.encodeRune r ++ ·) := by
+  by_cases h34 : r = 34
+  · subst h34
+    show unquote (92 :: 34 :: X) = _
+    rw [unquote_simple 34 34 X (by simp)]; rfl
+  by_cases h92 : r = 92
+  · subst h92
+    show unquote (92 :: 92 :: X) = _
+    rw [unquote_simple 92 92 X (by simp)]; rfl
+  have e1 : (r == 34 || r == 92) = false := by simp [h34, h92]
+  unfold escapedRune
+  rw [e1]
+  simp only [Bool.false_eq_true, if_false]
+  by_cases hp : isPrint r = true
+  · rw [if_pos hp]
+    exact unquote_rawlist _ _ (raw_ok isPrint hlf r hr h34 h92 hp)
+  rw [if_neg hp]
+  by_cases h7 : r = 7
+  · subst h7; exact unquote_simple 97 7 X (by simp)
+  by_cases h8 : r = 8
+  · subst h8; exact unquote_simple 98 8 X (by simp)
+  by_cases h12 : r = 12
+  · subst h12; exact unquote_simple 102 12 X (by simp)
+  by_cases h10 : r = 10
+  · subst h10; exact unquote_simple 110 10 X (by simp)
+  by_cases h13 : r = 13
+  · subst h13; exact unquote_simple 114 13 X (by simp)
+  by_cases h9 : r = 9
+  · subst h9; exact unquote_simple 116 9 X (by simp)
+  by_cases h11 : r = 11
+  · subst h11; exact unquote_simple 118 11 X (by simp)
+  have e2 : (r == 7) = false ∧ (r == 8) = false ∧ (r == 12) = false ∧ (r == 10) = false ∧ (r == 13) = false ∧
+      (r == 9) = false ∧ (r == 11) = false := by simp [*]
+  simp only [e2, Bool.false_eq_true, if_false]
+  by_cases hx : r < 32 ∨ r = 127
+  · have : (decide (r < 32) || r == 127) = true := by simpa using hx
+    rw [if_pos this, encodeRune_ascii r (by omega)]
+    show unquote (92 :: 120 :: (hexN 2 r ++ X)) = _
+    rw [unquote_x, Nat.mod_eq_of_lt (by omega)]
+    rfl
+  have : (decide (r < 32) || r == 127) = false := by simpa using hx
+  rw [this]
+  simp only [Bool.false_eq_true, if_false]
+  by_cases hu : r < 0x10000
+  · rw [if_pos hu]
+    exact unquote_u r X hu hs
+  · rw [if_neg hu]
+    exact unquote_U r X hr hs
+
+theorem escaped_no_lf (isPrint : Nat → Bool) (hlf : isPrint 10 = false) (r : Nat) (hr : r < 0x110000) :
+    (10 : UInt8) ∉ escapedRune isPrint r (Utf8.encodeRune r) := by
+  unfold escapedRune
+  split
+  · rename_i h
+    simp only [Bool.or_eq_true, beq_iff_eq] at h
+    rcases h with rfl | rfl <;> decide
+  split
+  · rename_i h hp
+    simp only [Bool.or_eq_true, beq_iff_eq, not_or] at h
+    intro hm
+    exact (raw_ok isPrint hlf r hr h.1 h.2 hp _ hm).2.1 rfl
+  repeat' split
+  all_goals first
+    | decide
+    | (simp only [List.cons_append, List.nil_append, List.mem_cons, not_or]
+       exact ⟨by decide, by decide, hexN_no_lf _ _⟩)
+
+
+theorem u8_eq (n : Nat) (b : UInt8) (h : n = b.toNat) : n.toUInt8 = b := by
+  subst h; simp
+
+theorem enc2 (b0 b1 : UInt8) (r : Nat) (h0 : 0xC2 ≤ b0.toNat) (h0' : b0.toNat < 0xE0)
+    (h1 : 0x80 ≤ b1.toNat) (h1' : b1.toNat ≤ 0xBF) (hr : r = (b0.toNat - 0xC0) * 64 + (b1.toNat - 0x80)) :
+    Utf8.encodeRune r = [b0, b1] ∧ 0x80 ≤ r ∧ r < 0x800 := by
+  have hb : 0x80 ≤ r ∧ r < 0x800 := by omega
+  refine ⟨?_, hb⟩
+  unfold Utf8.encodeRune
+  rw [if_neg (by omega), if_pos (by omega), u8_eq _ b0 (by omega), u8_eq _ b1 (by omega)]
+
+theorem enc3 (b0 b1 b2 : UInt8) (r : Nat) (h0 : 0xE0 ≤ b0.toNat) (h0' : b0.toNat < 0xF0)
+    (h1 : (if b0.toNat = 0xE0 then 0xA0 else 0x80) ≤ b1.toNat) (h1' : b1.toNat ≤ (if b0.toNat = 0xED then 0x9F else 0xBF))
+    (h2 : 0x80 ≤ b2.toNat) (h2' : b2.toNat ≤ 0xBF)
+    (hr : r = (b0.toNat - 0xE0) * 4096 + (b1.toNat - 0x80) * 64 + (b2.toNat - 0x80)) :
+    Utf8.encodeRune r = [b0, b1, b2] ∧ 0x800 ≤ r ∧ r < 0x10000 ∧ ¬ (0xD800 ≤ r ∧ r < 0xE000) := by
+  have hb : 0x800 ≤ r ∧ r < 0x10000 ∧ ¬ (0xD800 ≤ r ∧ r < 0xE000) := by
+    split at h1 <;> split at h1' <;> omega
+  have h1a : 0x80 ≤ b1.toNat := by split at h1 <;> omega
+  have h1b : b1.toNat ≤ 0xBF := by split at h1' <;> omega
+  refine ⟨?_, hb⟩
+  unfold Utf8.encodeRune
+  rw [if_neg (by omega), if_neg (by omega), if_pos (by omega), u8_eq _ b0 (by omega), u8_eq _ b1 (by omega),
+    u8_eq _ b2 (by omega)]
+
+theorem enc4 (b0 b1 b2 b3 : UInt8) (r : Nat) (h0 : 0xF0 ≤ b0.toNat) (h0' : b0.toNat < 0xF5)
+    (h1 : (if b0.toNat = 0xF0 then 0x90 else 0x80) ≤ b1.toNat) (h1' : b1.toNat ≤ (if b0.toNat = 0xF4 then 0x8F else 0xBF))
+    (h2 : 0x80 ≤ b2.toNat) (h2' : b2.toNat ≤ 0xBF) (h3 : 0x80 ≤ b3.toNat) (h3' : b3.toNat ≤ 0xBF)
+    (hr : r = (b0.toNat - 0xF0) * 262144 + (b1.toNat - 0x80) * 4096 + (b2.toNat - 0x80) * 64 + (b3.toNat - 0x80)) :
+    Utf8.encodeRune r = [b0, b1, b2, b3] ∧ 0x10000 ≤ r ∧ r < 0x110000 := by
+  have hb : 0x10000 ≤ r ∧ r < 0x110000 := by
+    split at h1 <;> split at h1' <;> omega
+  have h1a : 0x80 ≤ b1.toNat := by split at h1 <;> omega
+  have h1b : b1.toNat ≤ 0xBF := by split at h1' <;> omega
+  refine ⟨?_, hb⟩
+  unfold Utf8.encodeRune
+  rw [if_neg (by omega), if_neg (by omega), if_neg (by omega), u8_eq _ b0 (by omega), u8_eq _ b1 (by omega),
+    u8_eq _ b2 (by omega), u8_eq _ b3 (by omega)]
+
+
+theorem dr3 (b0 b1 b2 : UInt8) (t2 : Bytes) (c1 : ¬ b0 < 0x80) (c2 : ¬ b0 < 0xC2) (c3 : ¬ b0 < 0xE0) (c4 : b0 < 0xF0) :
+  Utf8.decodeRune (b0 :: b1 :: b2 :: t2) =
+        if ((if b0 == 0xE0 then 0xA0 else 0x80) ≤ b1 && b1 ≤ (if b0 == 0xED then 0x9F else 0xBF) && Utf8.isCont b2) = true then
+          ((b0.toNat - 0xE0) * 4096 + (b1.toNat - 0x80) * 64 + (b2.toNat - 0x80), 3)
+        else (Utf8.runeError, 1) := by
+  simp only [Utf8.decodeRune, c1, c2, c3, c4, if_true, if_false]
+
+theorem dr4 (b0 b1 b2 b3 : UInt8) (t3 : Bytes) (c1 : ¬ b0 < 0x80) (c2 : ¬ b0 < 0xC2) (c3 : ¬ b0 < 0xE0) (c4 : ¬ b0 < 0xF0)
+    (c5 : b0 < 0xF5) :
+  Utf8.decodeRune (b0 :: b1 :: b2 :: b3 :: t3) =
+        if ((if b0 == 0xF0 then 0x90 else 0x80) ≤ b1 && b1 ≤ (if b0 == 0xF4 then 0x8F else 0xBF) && Utf8.isCont b2 && Utf8.isCont b3) = true then
+          ((b0.toNat - 0xF0) * 262144 + (b1.toNat - 0x80) * 4096 + (b2.toNat - 0x80) * 64 + (b3.toNat - 0x80), 4)
+        else (Utf8.runeError, 1) := by
+  simp only [Utf8.decodeRune, c1, c2, c3, c4, c5, if_true, if_false]
+
+def Valid (s : Bytes) (r w : Nat) : Prop :=
+  1 ≤ w ∧ Utf8.encodeRune r = s.take w ∧ r < 0x110000 ∧ ¬ (0xD800 ≤ r ∧ r < 0xE000) ∧ ¬ (r = 0xFFFD ∧ w = 1)
+
+theorem isCont_nat (b : UInt8) (h : Utf8.isCont b = true) : 0x80 ≤ b.toNat ∧ b.toNat ≤ 0xBF := by
+  simpa [Utf8.isCont, UInt8.le_iff_toNat_le] using h
+
+theorem decode_cases (b0 : UInt8) (t : Bytes) :
+    Utf8.decodeRune (b0 :: t) = (Utf8.runeError, 1) ∨
+      Valid (b0 :: t) (Utf8.decodeRune (b0 :: t)).1 (Utf8.decodeRune (b0 :: t)).2 := by
+  by_cases c1 : b0 < 0x80
+  · right
+    have c1' : b0.toNat < 0x80 := by simpa [UInt8.lt_iff_toNat_lt] using c1
+    simp only [Utf8.decodeRune, c1, if_true]
+    refine ⟨Nat.le_refl _, ?_, by omega, by omega, by omega⟩
+    simp [Utf8.encodeRune, c1']
+  by_cases c2 : b0 < 0xC2
+  · left; simp only [Utf8.decodeRune, c1, c2, if_true, if_false]
+  by_cases c3 : b0 < 0xE0
+  · rcases t with _ | ⟨b1, t1⟩
+    · left; simp only [Utf8.decodeRune, c1, c2, c3, if_true, if_false]
+    · simp only [Utf8.decodeRune, c1, c2, c3, if_true, if_false]
+      by_cases hc : Utf8.isCont b1 = true
+      · right
+        simp only [hc, if_true]
+        have := isCont_nat b1 hc
+        simp only [UInt8.lt_iff_toNat_lt, Nat.not_lt] at c2 c3
+        obtain ⟨e, h1, h2⟩ := enc2 b0 b1 _ c2 c3 this.1 this.2 rfl
+        exact ⟨by omega, by simpa using e, by omega, by omega, by omega⟩
+      · left; simp only [hc]; rfl
+  by_cases c4 : b0 < 0xF0
+  · rcases t with _ | ⟨b1, _ | ⟨b2, t2⟩⟩
+    · left; simp only [Utf8.decodeRune, c1, c2, c3, c4, if_true, if_false]
+    · left; simp only [Utf8.decodeRune, c1, c2, c3, c4, if_true, if_false]
+    · rw [dr3 b0 b1 b2 t2 c1 c2 c3 c4]
+      by_cases hc : ((if b0 == 0xE0 then 0xA0 else 0x80) ≤ b1 && b1 ≤ (if b0 == 0xED then 0x9F else 0xBF) && Utf8.isCont b2) = true
+      · right
+        rw [if_pos hc]
+        simp only [Bool.and_eq_true, decide_eq_true_eq] at hc
+        obtain ⟨⟨hlo, hhi⟩, hc2⟩ := hc
+        have k2 := isCont_nat b2 hc2
+        simp only [UInt8.lt_iff_toNat_lt, Nat.not_lt] at c3 c4
+        have hlo' : (if b0.toNat = 0xE0 then 0xA0 else 0x80) ≤ b1.toNat := by
+          by_cases e : b0 = 0xE0
+          · subst e; simpa [UInt8.le_iff_toNat_le] using hlo
+          · have : b0.toNat ≠ 0xE0 := fun h => e (UInt8.toNat_inj.mp h)
+            simpa [UInt8.le_iff_toNat_le, e, this] using hlo
+        have hhi' : b1.toNat ≤ (if b0.toNat = 0xED then 0x9F else 0xBF) := by
+          by_cases e : b0 = 0xED
+          · subst e; simpa [UInt8.le_iff_toNat_le] using hhi
+          · have : b0.toNat ≠ 0xED := fun h => e (UInt8.toNat_inj.mp h)
+            simpa [UInt8.le_iff_toNat_le, e, this] using hhi
+        obtain ⟨e, h1, h2, h3⟩ := enc3 b0 b1 b2 _ c3 c4 hlo' hhi' k2.1 k2.2 rfl
+        exact ⟨by omega, by simpa using e, by omega, h3, by omega⟩
+      · left; rw [if_neg hc]
+  by_cases c5 : b0 < 0xF5
+  · rcases t with _ | ⟨b1, _ | ⟨b2, _ | ⟨b3, t3⟩⟩⟩
+    · left; simp only [Utf8.decodeRune, c1, c2, c3, c4, c5, if_true, if_false]
+    · left; simp only [Utf8.decodeRune, c1, c2, c3, c4, c5, if_true, if_false]
+    · left; simp only [Utf8.decodeRune, c1, c2, c3, c4, c5, if_true, if_false]
+    · rw [dr4 b0 b1 b2 b3 t3 c1 c2 c3 c4 c5]
+      by_cases hc : ((if b0 == 0xF0 then 0x90 else 0x80) ≤ b1 && b1 ≤ (if b0 == 0xF4 then 0x8F else 0xBF) && Utf8.isCont b2 && Utf8.isCont b3) = true
+      · right
+        rw [if_pos hc]
+        simp only [Bool.and_eq_true, decide_eq_true_eq] at hc
+        obtain ⟨⟨⟨hlo, hhi⟩, hc2⟩, hc3⟩ := hc
+        have k2 := isCont_nat b2 hc2
+        have k3 := isCont_nat b3 hc3
+        simp only [UInt8.lt_iff_toNat_lt, Nat.not_lt] at c4 c5
+        have hlo' : (if b0.toNat = 0xF0 then 0x90 else 0x80) ≤ b1.toNat := by
+          by_cases e : b0 = 0xF0
+          · subst e; simpa [UInt8.le_iff_toNat_le] using hlo
+          · have : b0.toNat ≠ 0xF0 := fun h => e (UInt8.toNat_inj.mp h)
+            simpa [UInt8.le_iff_toNat_le, e, this] using hlo
+        have hhi' : b1.toNat ≤ (if b0.toNat = 0xF4 then 0x8F else 0xBF) := by
+          by_cases e : b0 = 0xF4
+          · subst e; simpa [UInt8.le_iff_toNat_le] using hhi
+          · have : b0.toNat ≠ 0xF4 := fun h => e (UInt8.toNat_inj.mp h)
+            simpa [UInt8.le_iff_toNat_le, e, this] using hhi
+        obtain ⟨e, h1, h2⟩ := enc4 b0 b1 b2 b3 _ c4 c5 hlo' hhi' k2.1 k2.2 k3.1 k3.2 rfl
+        exact ⟨by omega, by simpa using e, by omega, by omega, by omega⟩
+      · left; rw [if_neg hc]
+  · left; simp only [Utf8.decodeRune, c1, c2, c3, c4, c5, if_false]
+
+
+/-- The bytes `quoteAux` emits for the first rune of `s`. -/
+def chunk (isPrint : Nat → Bool) (s : Bytes) : Bytes :=
+  if (Utf8.decodeRune s).1 == Utf8.runeError && max (Utf8.decodeRune s).2 1 == 1 then
+    [92, 120] ++ hexN 2 (s.headD 0).toNat
+  else escapedRune isPrint (Utf8.decodeRune s).1 (s.take (max (Utf8.decodeRune s).2 1))
+
+theorem quoteAux_succ (isPrint : Nat → Bool) (fuel : Nat) (b : UInt8) (t : Bytes) :
+    quoteAux isPrint (fuel + 1) (b :: t) =
+      chunk isPrint (b :: t) ++ quoteAux isPrint fuel ((b :: t).drop (max (Utf8.decodeRune (b :: t)).2 1)) := by
+  rw [quoteAux]
+  rfl
+
+theorem chunk_ok (isPrint : Nat → Bool) (hlf : isPrint 10 = false) (b : UInt8) (t : Bytes) :
+    (∀ X, unquote (chunk isPrint (b :: t) ++ X) =
+      (unquote X).map ((b :: t).take (max (Utf8.decodeRune (b :: t)).2 1) ++ ·)) ∧
+    (10 : UInt8) ∉ chunk isPrint (b :: t) := by
+  rcases decode_cases b t with h | h
+  · have hc : chunk isPrint (b :: t) = 92 :: 120 :: hexN 2 b.toNat := by
+      simp [chunk, h]
+    rw [hc, h]
+    constructor
+    · intro X
+      show unquote (92 :: 120 :: (hexN 2 b.toNat ++ X)) = _
+      rw [unquote_x, Nat.mod_eq_of_lt (UInt8.toNat_lt b)]
+      simp
+    · simp only [List.mem_cons, not_or]
+      exact ⟨by decide, by decide, hexN_no_lf _ _⟩
+  · obtain ⟨hw, henc, hr, hs, hne⟩ := h
+    have hmax : max (Utf8.decodeRune (b :: t)).2 1 = (Utf8.decodeRune (b :: t)).2 := by omega
+    have hc : chunk isPrint (b :: t) =
+        escapedRune isPrint (Utf8.decodeRune (b :: t)).1 (Utf8.encodeRune (Utf8.decodeRune (b :: t)).1) := by
+      unfold chunk
+      rw [hmax, henc]
+      have : ((Utf8.decodeRune (b :: t)).1 == Utf8.runeError && (Utf8.decodeRune (b :: t)).2 == 1) = false := by
+        simp only [Bool.and_eq_false_iff, beq_eq_false_iff_ne, Utf8.runeError]
+        by_cases e : (Utf8.decodeRune (b :: t)).1 = 0xFFFD
+        · right; intro e2; exact hne ⟨e, e2⟩
+        · left; exact e
+      rw [this]
+      simp
+    rw [hc, hmax, ← henc]
+    exact ⟨fun X => escaped_ok isPrint hlf _ hr hs X, escaped_no_lf isPrint hlf _ hr⟩
+
+theorem quoteAux_ok (isPrint : Nat → Bool) (hlf : isPrint 10 = false) :
+    ∀ (fuel : Nat) (s : Bytes), s.length ≤ fuel →
+      unquote (quoteAux isPrint fuel s) = some s ∧ (10 : UInt8) ∉ quoteAux isPrint fuel s := by
+  intro fuel
+  induction fuel with
+  | zero =>
+    intro s hs
+    have : s = [] := List.eq_nil_of_length_eq_zero (by omega)
+    subst this
+    exact ⟨rfl, by simp [quoteAux]⟩
+  | succ fuel ih =>
+    intro s hs
+    cases s with
+    | nil => exact ⟨rfl, by simp [quoteAux]⟩
+    | cons b t =>
+      rw [quoteAux_succ]
+      obtain ⟨h1, h2⟩ := chunk_ok isPrint hlf b t
+      have hlen : ((b :: t).drop (max (Utf8.decodeRune (b :: t)).2 1)).length ≤ fuel := by
+        simp only [List.length_drop, List.length_cons] at hs ⊢
+        omega
+      obtain ⟨i1, i2⟩ := ih _ hlen
+      constructor
+      · rw [h1, i1]
+        simp
+      · simp only [List.mem_append, not_or]
+        exact ⟨h2, i2⟩
+
 /-- `strconv.Unquote` inverts `strconv.Quote` for every byte string (invalid UTF-8 included), whatever
     `unicode.IsPrint` says, provided it does not call LF printable. -/
 theorem unquote_quote (isPrint : Nat → Bool) (hlf : isPrint 10 = false) (s : Bytes) :
-    unquote (quote isPrint s) = some s := by
-  sorry
+    unquote (quote isPrint s) = some s :=
+  (quoteAux_ok isPrint hlf s.length s (Nat.le_refl _)).1
 
 /-- A quoted literal never contains a raw line break, so literals cannot spill over lines of the text file. -/
-theorem quote_no_lf (isPrint : Nat → Bool) (hlf : isPrint 10 = false) (s : Bytes) : (10 : UInt8) ∉ quote isPrint s := by
-  sorry
+theorem quote_no_lf (isPrint : Nat → Bool) (hlf : isPrint 10 = false) (s : Bytes) : (10 : UInt8) ∉ quote isPrint s :=
+  (quoteAux_ok isPrint hlf s.length s (Nat.le_refl _)).2
 
 /-- Line `i+1` of the development text file is literal `i`. -/
 theorem devLiteral_textFile (qs : List Bytes) (hq : ∀ q ∈ qs, (10 : UInt8) ∉ q) (i : Nat) (hi : i < qs.length) :
     devLiteral (textFile qs) (i + 1) = unquote (qs.getD i []) := by
-  sorry
+  have hne : qs ≠ [] := by intro h; subst h; simp at hi
+  have hs : splitLF (joinLF qs) = qs := Doc.splitLF_joinLF qs ⟨hne, hq⟩
+  simp [devLiteral, textFile, hs, List.getD, hi]
 
 end TemplVerif.Proofs.Quote
